@@ -136,8 +136,9 @@ class World:
     # ---------------- shims handed to the library
     def time_module(self):
         w = self
-        return types.SimpleNamespace(time=lambda: w.now, sleep=lambda d: w.block(lambda: False, w.now + max(0, d or 0), desc="sleep"),
-                                     monotonic=lambda: w.now)
+        # the two clocks have different origins, as the real ones do (both exact in binary floating point at the 1/8 s grid)
+        return types.SimpleNamespace(time=lambda: w.now + 1073741824.0, sleep=lambda d: w.block(lambda: False, w.now + max(0, d or 0), desc="sleep"),
+                                     monotonic=lambda: w.now + 4096.0)
 
     def threading_module(self):
         w = self
@@ -285,6 +286,11 @@ class VSock:
         stall = getattr(self, "send_stalls_from", None)
         if stall is not None and self.answered and self.w.now >= stall - 1e-12:
             # the peer has stopped reading and the send buffer is full: the write times out (nothing reaches the wire)
+            self.log.append((self.w.now, "wfail", data))
+            raise socket.timeout("timed out")
+        until = getattr(self, "send_stalls_until", None)
+        if until is not None and self.answered and stall is None and until[0] - 1e-12 <= self.w.now < until[1] - 1e-12:
+            # a transient stall: writes in this window time out, the connection survives
             self.log.append((self.w.now, "wfail", data))
             raise socket.timeout("timed out")
         self.log.append((self.w.now, "w", data))
